@@ -8,7 +8,7 @@ import TucanProofs.Lemmas.FilesMol
 About the model, for graphs of every size and shape (no bound on atoms, components, degree or
 refinement depth): the pipeline returns a string — no `RecursionError`-like fuel exhaustion, no
 `AssertionError`, `IndexError`, `KeyError` or `ValueError` result is reachable.  The refinement is a loop
-(after the repair of the recursive generator) that provably stops within `n + 1` rounds; the BFS
+(after the repair of the recursive generator) that provably stops within `n` rounds (`n` atoms; the model's fuel is `n + 1`); the BFS
 relabelling is defined by well-founded recursion, never pops an empty list and meets its assertion.
 What no theorem exhibits: Python's actual stack depth, memory, bliss's running time and the ANTLR
 runtime's own recursion — the harness runs the real pipeline on depth-linear families in the thousands.
@@ -38,8 +38,8 @@ theorem C15_canonicalize_total (order : Graph → List Nat) (g : Graph) (hw : g.
     ∃ c r k, canonicalizeWith g order = .ok (c, r, k) :=
   canonicalize_total order g hw hs hne hattrs
 
-/-- the refinement loop needs at most `n + 1` rounds: its depth is linear in the number of atoms, and the
-fuel `n + 1` the model gives it is never exhausted -/
+/-- the refinement loop needs at most `n` rounds for `n` atoms: its depth is linear in the number of atoms, and
+the fuel `n + 1` the model gives it is never exhausted -/
 theorem C15_refinement_terminates (g : Graph) (hw : g.WF) (hs : g.Simple) (hd : Dense g) (hne : g.labels ≠ []) :
     ∃ r n, refinePartitions g = .ok (r, n) ∧ n ≤ g.numberOfNodes :=
   refinePartitions_ok copySpec mapAttrsSpec g hw hs hd hne
